@@ -2,7 +2,8 @@
 
 Three pieces (the mechanism family: "the literal written for a pattern is no longer one complete literal"):
  * `campaign_patlit`      correspondence: the real `model/pydantic/types.py pattern_literal` vs `Proofs/PatternLit.patternLiteral`
-                          (text equality), and the lexer model reading the REAL literal back (`patlit.token`) — theorem
+                          (text equality, with the harness's isprintable bits AND with the generated table `cpythonPrintable`), the real
+                          literal holds no `str.splitlines` boundary (`pattern_literal_has_no_line_boundary`), and the lexer model reading the REAL literal back (`patlit.token`) — theorem
                           `pattern_literal_one_token` says it is one token whose value is the pattern;
  * `campaign_patterns`    always-run end-to-end family: a stratified sample of patterns over the alphabet
                           {', ", \\, both quote kinds together, trailing backslash, newline, triple quotes, braces, tab}
@@ -35,7 +36,7 @@ CLASSES: dict[str, list[str]] = {
     "braces": ["{2,3}", "{{", "}}", "{{ x }}", "{%", "{#", "a{1}"],
     "tab": ["\t", "\x1f", "\x7f"],
     "hash": ["#", " # "],
-    "non_ascii": ["é", "\x85", " ", "\U0001f600"],
+    "non_ascii": ["é", "\x85", "\u2028", "\u2029", "\xa0", "\xad", "\U0001f600"],
 }
 TAILS: dict[str, list[str]] = {"trailing_backslash": [BS, BS * 3], "trailing_even_backslash": [BS * 2], "trailing_quote": [SQ, DQ]}
 FILL = ["^", "$", ".*", "[a-z]+", "a", "1", " ", "(x|y)", "?"]
@@ -43,6 +44,13 @@ KINDS_MAIN = ["pydantic_v2.BaseModel", "pydantic.BaseModel"]
 KINDS_OTHER = ["dataclasses.dataclass", "typing.TypedDict", "msgspec.Struct"]
 POSITIONS = ["member", "root", "item", "pattern_properties"]
 QUOTE_CLASSES = {"single_quote", "double_quote", "backslash", "escaped_quote"}
+LINE_BOUNDARY = "\x85\u2028\u2029"  # str.splitlines boundaries that are not ASCII control characters (repaired finding C01-pattern-line-boundary)
+SPLITLINES = "\n\x0b\x0c\r\x1c\x1d\x1e" + LINE_BOUNDARY  # every character at which str.splitlines splits (= Proofs/PatternLit.lineBoundaries)
+# minimised past failures of this family, run first on every run (must pass): the witness of the repaired finding
+# C01-pattern-line-boundary (pattern_literal wrote U+0085 / U+2028 / U+2029 verbatim into the raw literal of a pydantic v2 root-model
+# class header; isort / black split the line there and generate() with the default formatters raised InvalidInput) and its two siblings
+PATTERN_CORPUS = [("a\x85b", "root", "pydantic_v2.BaseModel"), ("a\u2028b", "root", "pydantic_v2.BaseModel"), ("^x\u2029$", "root", "pydantic_v2.BaseModel"),
+                  ("a\x85b", "item", "pydantic_v2.BaseModel"), ("a\x85b", "root", "pydantic.BaseModel")]
 
 
 def build(rng, classes: list[str], tail: str | None = None) -> str:
@@ -97,6 +105,10 @@ def tags_of(p: str) -> list[str]:
         t.append("dangling_backslash")
     if any(ord(c) < 32 or ord(c) == 127 for c in p):
         t.append("control_or_newline")
+    if any(c in LINE_BOUNDARY for c in p):
+        t.append("non_ascii_line_boundary")
+    elif not p.isprintable() and not any(ord(c) < 32 or ord(c) == 127 for c in p):
+        t.append("non_printable_above_ascii")
     if SQ * 3 in p or DQ * 3 in p:
         t.append("triple_quote")
     if "{" in p or "}" in p:
@@ -157,9 +169,6 @@ def judge(ck: Check, camp, case: dict) -> None:
                 f"parses): {res.error_type}: {res.error_msg}")
 
 
-LINE_BOUNDARY = "\x85\u2028\u2029"  # str.splitlines boundaries that are neither ASCII control characters nor escaped by pattern_literal
-
-
 def map_patterns(doc, fn):
     """copy of the document with `fn` applied to every `pattern` value and every patternProperties key"""
     if isinstance(doc, dict):
@@ -171,7 +180,7 @@ def map_patterns(doc, fn):
 
 
 def formatter_trigger(case: dict) -> str:
-    """attribution of a failure that only the default formatters show (for the recorded finding C01-pattern-line-boundary): the
+    """attribution of a failure that only the default formatters show (the mechanism of the REPAIRED finding C01-pattern-line-boundary): the
     patterns hold a non-ASCII line boundary (U+0085 / U+2028 / U+2029) AND the same case with those characters replaced generates"""
     from . import c01
 
@@ -220,6 +229,12 @@ def campaign_patterns(ck: Check, n_extra: int) -> None:
                        "× field_constraints off/on × formatters off/default × member/root/item/patternProperties: terminates, every module parses")
     t0 = time.time()
     rng = ck.rng.fork("c01-patterns")
+    for p, pos, kind in PATTERN_CORPUS:
+        camp.hit("corpus")
+        for t in tags_of(p):
+            camp.hit("pattern:" + t)
+        c = {"doc": document(p, pos), "model": kind, "opts": {}, "clean": True, "features": ["pattern", pos] + tags_of(p), "formatters": "default"}
+        judge(ck, camp, c)
     plan = core_strata()
     rest = strata()
     plan += [rest[rng.range(0, len(rest) - 1)] for _ in range(n_extra)]
@@ -238,11 +253,12 @@ def campaign_patterns(ck: Check, n_extra: int) -> None:
 
 # ---------------------------------------------------------------- correspondence with the real function
 ALPHABET = [[SQ, DQ, SQ + DQ, BS, BS + BS, BS + SQ, BS + DQ, SQ * 3, DQ * 3], ["\n", "\t", "\r", "\x00", "\x7f", "\x1f", "{", "}", "{{"],
-            list("^$.*+d[]()|a1 #"), [BS + "d", BS + ".", BS + "w+", "é", "\x80", "\x85", "\xad", " ", "\U0001f600"]]
+            list("^$.*+d[]()|a1 #"), [BS + "d", BS + ".", BS + "w+", "é", "\x80", "\x85", "\xad", "\xa0", "\u2028", "\u2029", "\u0378", "\ue000", "\U0001f600"]]
 
 
 def campaign_patlit(ck: Check, n: int) -> None:
-    camp = ck.campaign("patlit.text (Proofs/PatternLit.patternLiteral) vs model/pydantic/types.py pattern_literal: same text; "
+    camp = ck.campaign("patlit.text / patlit.cpython (Proofs/PatternLit.patternLiteral with str.isprintable bits / with the generated table Gen/Printable) "
+                       "vs model/pydantic/types.py pattern_literal: same text; the real literal holds no str.splitlines boundary (pattern_literal_has_no_line_boundary); "
                        "patlit.token: the lexer model reads the REAL literal back as one token = the pattern (pattern_literal_one_token)")
     t0 = time.time()
     from datamodel_code_generator.model.pydantic.types import pattern_literal
@@ -252,7 +268,7 @@ def campaign_patlit(ck: Check, n: int) -> None:
     rng = ck.rng.fork("patlit")
     cases = [build(rng, cl, tail) for cl, tail in strata()]
     cases += [gens.adversarial(rng, 7, ALPHABET) for _ in range(n)]
-    cases += ["", BS, BS + BS, "a" + BS, SQ, DQ, SQ + DQ, DQ + SQ, "^abc$", "\x7f"]
+    cases += ["", BS, BS + BS, "a" + BS, SQ, DQ, SQ + DQ, DQ + SQ, "^abc$", "\x7f"] + [p for p, _, _ in PATTERN_CORPUS] + list(SPLITLINES) + ["\x00"]
     lits = []
     for s in cases:
         try:
@@ -263,14 +279,18 @@ def campaign_patlit(ck: Check, n: int) -> None:
     for s, lit in zip(cases, lits):
         reqs.append(f"patlit.text {hx(s)} b{''.join('1' if c.isprintable() else '0' for c in s)}")
         reqs.append(f"patlit.token {hx(lit + ')')}")
+        reqs.append(f"patlit.cpython {hx(s)}")
     replies = ck.driver.run(reqs)
     bad: list[str] = []
     bad_token: list[str] = []
     for i, (s, lit) in enumerate(zip(cases, lits)):
         camp.evaluations += 1
-        text, tok = replies[2 * i], replies[2 * i + 1]
+        text, tok, tab = replies[3 * i], replies[3 * i + 1], replies[3 * i + 2]
         model = unhx(text.split(" ")[1]) if text.startswith("ok ") else text
+        model_tab = unhx(tab.split(" ")[1]) if tab.startswith("ok ") else tab
         camp.hit("raw" if lit[:1] == "r" else "repr")
+        if lit[:1] == "r" and any(ord(c) > 127 for c in s):  # noqa: PLR2004
+            camp.hit("raw:non_ascii_printable")
         for t in tags_of(s):
             camp.hit("pattern:" + t)
         camp.distinct.add(s)
@@ -283,6 +303,14 @@ def campaign_patlit(ck: Check, n: int) -> None:
         elif model != lit:
             ck.disagree(camp, {"pattern": s}, model, lit)
             bad.append(s)
+        elif model_tab != lit:
+            # rule + generated table Gen/Printable (nothing supplied by the harness) vs the real function
+            ck.disagree(camp, {"pattern": s, "predicate": "cpythonPrintable (Gen/Printable)"}, model_tab, lit)
+            bad.append(s)
+        elif any(c in SPLITLINES for c in lit):
+            # the statement of pattern_literal_has_no_line_boundary on the real function: formatters cut the module there
+            ck.disagree(camp, {"pattern": s, "literal": lit}, "no character of the literal is a str.splitlines boundary", [hex(ord(c)) for c in lit if c in SPLITLINES])
+            bad_token.append(s)
         elif len(camp.samples) < 3 and len(s) > 3 and SQ in s:
             camp.samples.append({"pattern": s, "literal": lit})
     ck.notes["patlit_disagreeing"] = sorted(bad_token, key=len)[:30] + sorted(bad, key=len)[:10]
